@@ -188,6 +188,9 @@ func (x *Exec) query(conds ...*smt.Term) smt.Result {
 			all[i] = lt
 		}
 		// queries are decided outside the undetermined (nudge-absorbed) region
+		if ex, ok := x.lifter.(interface{ Extra() []*smt.Term }); ok {
+			all = append(all, ex.Extra()...)
+		}
 		for _, a := range x.lifter.TakeAmbig() {
 			x.note("G: nudge-absorption ties excluded from the exact domain")
 			all = append(all, x.C.Not(a))
@@ -399,9 +402,19 @@ func (x *Exec) fullModel() smt.Model {
 			vars = append(vars, v)
 		}
 	}
+	fixer, hasFix := x.lifter.(interface {
+		FixModel(smt.Model)
+		IntVars() []*smt.Term
+	})
+	if hasFix {
+		vars = append(vars, fixer.IntVars()...)
+	}
 	m, err := x.S.Model(vars)
 	if err != nil {
 		panic(&engineError{msg: "model: " + err.Error()})
+	}
+	if hasFix {
+		fixer.FixModel(m)
 	}
 	return m
 }
